@@ -70,3 +70,5 @@ def r3(model, rep):
                           "initial state is %s where %s is required" % (show_value(lf.value), show_value(want)), "state %s/%s" % (show_value(lf.value), show_value(want)))
     rep.instance("R3", "components.Source._get_state", "%s:%d" % (rel, fn.lineno), ok, "%d rows" % nrows)
     rep.attempt(sysrules.c04_propagation, model, rep)
+    rep.attempt(lambda: sysrules.phase_lookup_rule(model, rep, sysrules.roles(model), "R3"))
+    rep.attempt(sysrules.phase_conf_writers_rule, model, rep, "R3")
